@@ -17,7 +17,7 @@ CLAIMS = {
     'C03': (TECH_RULES, '§4 C03',
             'Decides, for all paths of the code: no plaintext leaves a decrypt site before its tag compared equal (both decrypt sites), '
             'the normal reader cannot reach the unauthenticated decrypt functions (direct-caller allowlists), every cipher of the layer '
-            'is keyed by build_nonce(prefix, chunk counter), and the footer is read through the authenticated layer stack. Does not '
+            'is keyed by build_nonce(prefix, chunk counter), the footer is read through the authenticated layer stack, chunk loads are complete reads and the end-of-data position is right for a full last chunk (a genuine defect, repaired in /repo). Does not '
             'decide that the tag arithmetic is the standard one (numeric).'),
     'C04': (TECH_RULES, '§4 C04',
             'Decides, for all paths: unauthenticated chunk loads sit only under the DataEvenUnauthenticated arm of the mode switch; the default '
@@ -57,17 +57,17 @@ CLAIMS = {
             'Decides for all paths of the ArchiveWriter call tree: no refusal knowable before writing (duplicate / over-long name, wrong state, unknown id) is '
             'reachable after an effect on the writer state or the destination (fixpoint summaries; structural discharges for contradicted arms and already-tested '
             'limits; dead refusals tabled with their invariant); effects sit behind the state and id-membership tests; the copied byte count is compared '
-            'with the announced length; refusals surface through StreamWriter and the CLI. Equality of the final archive with the reference model is not decided.'),
+            'with the announced length; refusals surface through StreamWriter and the CLI; current_id bookkeeping keeps every run findable; no adaptor discards an error of the destination (a genuine defect, repaired in /repo). Equality of the final archive with the reference model is not decided.'),
     'C14': (TECH_RULES, '§4 C14',
             'Decides for all paths: every flush of the writer chain (all LayerWriter types, WriterWithCount, StreamWriter, ArchiveWriter, the C entry point '
             'and callback adapter, the CLI output type) returns Ok only after forwarding the flush to the wrapped writer and reports its failure; the '
             'pass-through layers own no byte container; the compression layer flushes the brotli compressor; the fail-safe decompressor must call the '
-            'decoder before reporting end of input (one genuine defect recorded as known finding). The number of bytes recovered is not decided.'),
+            'decoder before reporting end of input (the genuine defect found was repaired in /repo); produced bytes are never replaced by an error and only a zero count ends the unauthenticated stream. The number of bytes recovered is not decided.'),
     'C13': (TECH_RULES + ' + raw read/write census', '§4 C13',
             'Decides over every raw Write::write / Read::read call of the workspace: accepted and read counts are returned or accumulated, never dropped or '
             'replaced by the requested length; no raw write outside pass-through `impl Write::write` bodies (all other transfers use the looping forms); '
             'chunks handed to the cipher are complete reads on a bounded take; buffer contents are consumed only up to the count read; decoder-produced '
-            'zero counts must not be returned mid-stream (one genuine defect recorded as known finding). Equality of the resulting archives is not decided.'),
+            'zero counts must not be returned mid-stream (the genuine defect found was repaired in /repo); a short count is never taken for the end of a source and destination error kinds survive on the write path. Equality of the resulting archives is not decided.'),
     'C02': (TECH_CENSUS + ' + MIR path rules on convert_to_archive', '§4 C02',
             'Decides: no unreviewed, input-tainted panic site is reachable from the fail-safe entry points (interval / guard / length-fact discharge, reviewed '
             'table); a file is marked done only on the hash-equal edge and the running hash covers exactly the appended slices; every Ok result follows a '
@@ -77,7 +77,7 @@ CLAIMS = {
             'Decides for the crash / allocation / recursion clauses: every MIR assert and panicking API call reachable (over-approximate call graph) from the '
             'reader, extraction, repair and C read entry points is discharged automatically or reviewed, and any new site fed by archive data is reported; '
             'allocation sizes derived from the archive are bounded by named constants, deserialisation is limit-bounded; direct self-recursion is tabled with '
-            'its depth bound (one genuine unbounded recursion recorded as known finding); placeholder-state and empty-offset guards dominate their panics. '
+            'its depth bound (one genuine unbounded recursion was repaired in /repo); placeholder-state and empty-offset guards dominate their panics; buffers of read loops are never empty. '
             'Loop termination, wall time and peak memory as numbers are not decided.'),
     'C18': (TECH_CENSUS, '§4 C18',
             'Decides totality (no crash) of the five public key parsers: all index / slice / copy sites reachable from them are discharged by the dominating '
